@@ -356,7 +356,11 @@ class _RawConfigParser(configparser.RawConfigParser):
       if "fallback" in kwargs:
         return kwargs["fallback"]
       raise configparser.NoOptionError(option, section)
-    return super(_RawConfigParser, self).get(section, option, **kwargs)
+    try:
+      return super(_RawConfigParser, self).get(section, option, **kwargs)
+    except configparser.InterpolationError as e:
+      # ... a ${...} place-holder that can't be resolved
+      raise ConfigParserException("Error substituting variables in [{}]: {}".format(section, e.message))
 
   def optionxform(self, option):
     # Whitespace is not significant in option names ('A - B' is 'A-B', 'f(r, A)' is 'f(r,A)').
@@ -406,6 +410,9 @@ class ConfigParser(object):
       cp.read_file(fp)
     except (configparser.DuplicateOptionError, configparser.DuplicateSectionError) as e:
       raise ConfigParserDuplicateEntryException(e.message)
+    except configparser.Error as e:
+      # ... the file isn't a valid .ini file (no section headers, lines that aren't 'key : value' etc.)
+      raise ConfigParserException("Could not parse configuration file: {}".format(e.message))
 
     # Process overrides
     for override in overrides:
